@@ -8,6 +8,7 @@ REGENERATED from /repo on every run (Anko.Gen.Walker, Anko.Gen.AstSchema), so
 import Anko.Proofs.Walk
 import Anko.Gen.AstSchema
 import Anko.Gen.Walker
+import Anko.Props.Tie.Inventory
 
 namespace Anko.C17
 open Anko
@@ -222,5 +223,16 @@ example : sample.wf Gen.schema Gen.walker = true := by decide
 example : (walkTop Gen.walker (fun _ => false) sample).1.length = sample.size := by decide
 example : (walkTop Gen.walker (fun p => p == [0, 0, 1, 0]) sample) =
     ([[0], [0, 0], [0, 0, 1], [0, 0, 1, 0]], .cbErr [0, 0, 1, 0]) := by decide
+
+
+/-! ### Declaration inventory
+
+Nothing was added to the packages this property is anchored in: their top-level declarations (functions, methods, variables, constants, types with
+the fields of struct types), regenerated from /repo on this run, are the audited ones (Props/Tie/Inventory). A helper, a package-level table or a
+file added there - code no flow table can pin - breaks the tie by name and makes this property's check search for a failing input. -/
+/-- ast/ -/
+theorem declarations_of_Ast_are_the_audited_ones : Tie.ofPkg "ast" Gen.Inventory.decls = Tie.ofPkg "ast" Tables.inventory := Tie.inventoryAst
+/-- ast/astutil/ -/
+theorem declarations_of_Astutil_are_the_audited_ones : Tie.ofPkg "ast/astutil" Gen.Inventory.decls = Tie.ofPkg "ast/astutil" Tables.inventory := Tie.inventoryAstutil
 
 end Anko.C17
